@@ -186,6 +186,7 @@ func (c *connection) send(conn net.Conn, connDone chan bool) {
 			}
 		}
 		c.idleTime = time.Now()
+		verifC11OnWrite(c, conn, m.req)
 		_, err := conn.Write(m.req)
 		if err != nil {
 			// TODO add retry times
